@@ -92,6 +92,12 @@ CLAIMS = {
         "Trusted: cantools; the layout itself (C04).",
         "DESIGN.md §4 C05",
     ),
+    "C07": (
+        "grammar child-kind languages (grammar extracted from parser.py, loaded as data) vs. destructuring and def-use provenance of constructor arguments in the semantic actions; frozen child->attribute map; regex ASTs of ignored terminals",
+        "Narrow (grammar <-> transformer agreement): every rule has a semantic action whose destructuring fits every child sequence the rule can produce; each constructor parameter of each spec class is fed from the child the grammar puts there (name, id, input/output, value, rest-lists in order, optional binding name); leaf conversions and the field-parameter table are the specified ones and each table entry sets only its own keys; one default binding per struct on every success path; declaration lists are only appended to; %ignore covers space, tab, newline and both comment forms and no ignored terminal is greedy. Does NOT decide Earley ambiguity resolution or print->parse (no printer in the repository).",
+        "Trusted: lark's grammar compilation (used as data), the frozen child->attribute map (DESIGN.md A.3).",
+        "DESIGN.md §4 C07",
+    ),
 }
 
 NOT_BUILT = "check not built yet in this session (see DESIGN.md §7 build order); not claimed until it exists"
